@@ -112,6 +112,16 @@ def run(ctx):
                 res.violations.append(dict(info, clause="within [0, 1] under the default scale", out=sf.tolist()))
             if default_scale and zero_val is not None and abs(zero_val - 1.0) > ATOL:
                 res.violations.append(dict(info, clause="zero distance -> similarity 1 under the default scale", got=zero_val))
+            # explicit parameters: exactly the documented formula, and the reported parameter is the given one
+            if "r" in kw and "cover_quantile" not in kw:
+                rr, aa = kw["r"], kw.get("a", 1.0)
+                doc = {"exponential": lambda d: math.exp(-d / rr), "gaussian": lambda d: math.exp(-d * d / (rr * rr)),
+                       "reciprocal": lambda d: 1.0 / (rr + d * aa), "reverse": lambda d: (rr - d) / rr}[method]
+                if float(r) != float(rr) or any(not close(float(a_), doc(float(d_))) for a_, d_ in zip(sf, flat)):
+                    res.violations.append(dict(info, clause="with explicit parameters the documented formula is "
+                                                            "computed (and the given r is reported)", out=sf.tolist(),
+                                               reported_r=float(r)))
+                res.hit("explicit_formula_d2s")
             # re-application with the reported parameter(s)
             kw2 = {k: v for k, v in kw.items() if k != "cover_quantile"}
             kw2["r"] = r
@@ -182,6 +192,26 @@ def run(ctx):
                     res.violations.append(dict(info, clause="keep_sign: negative inputs stay non-positive", out=rf.tolist()))
             else:
                 res.hit("squash_nonpositive_scale")
+            # explicit parameters: the documented formula, and the given parameters are the reported ones
+            if "r" in kw and (method != "logistic" or "x0" in kw):
+                rr = kw["r"]
+                xx0 = kw["x0"] if method == "logistic" else 0.0
+                bb = kw.get("base")
+                ex = (lambda t: math.exp(t)) if bb is None else (lambda t: math.pow(bb, t))
+                f = {"logistic": lambda x: 1.0 / (1.0 + ex(-(x - xx0) / rr)),
+                     "gaussian": lambda x: 1.0 - ex(-(x - xx0) ** 2 / (rr * rr)),
+                     "exponential": lambda x: 1.0 - ex(-(x - xx0) / rr)}[method]
+
+                def doc(x):
+                    if not keep:
+                        return f(x)
+                    return (1.0 if x > 0 else (-1.0 if x < 0 else 0.0)) * (f(abs(x)) - f(0.0))
+                if float(r) != float(rr) or float(x0) != float(xx0) or \
+                        any(not close(float(a_), doc(float(x_))) for a_, x_ in zip(rf, xf)):
+                    res.violations.append(dict(info, clause="with explicit parameters the documented formula is "
+                                                            "computed (and the given parameters are reported)",
+                                               out=rf.tolist(), reported=[float(r), float(x0)]))
+                res.hit("explicit_formula_squash")
             kw2 = {k: v for k, v in kw.items() if k != "cover_quantile"}
             kw2["r"] = r; kw2["x0"] = x0
             R2 = np.asarray(squash(X.copy(), **kw2), dtype=float)
